@@ -253,3 +253,379 @@ Proof.
   destruct (probcover_accepted cs n edges is_cand k noises Hnd Hlt Hk Hl Hc Hn) as [Hs _].
   exact (steps_ok_spec SelMax cs n t [] Hs i s Hi).
 Qed.
+
+(* =====================================================================================
+   scatter / nanmax toolbox
+   ===================================================================================== *)
+Fixpoint index_of (q : nat) (l : list nat) : option nat :=
+  match l with
+  | [] => None
+  | x :: t => if Nat.eqb q x then Some O else option_map S (index_of q t)
+  end.
+
+Lemma index_of_none q l : ~ In q l -> index_of q l = None.
+Proof.
+  induction l as [|x t IH]; intros H; [reflexivity|]. cbn [index_of].
+  destruct (Nat.eqb_spec q x) as [->|Hne]; [exfalso; apply H; left; reflexivity|].
+  rewrite IH; [reflexivity|]. intros Hin. apply H. right. exact Hin.
+Qed.
+
+Lemma index_of_some q l i : index_of q l = Some i -> (i < length l)%nat /\ nth i l O = q.
+Proof.
+  revert i. induction l as [|x t IH]; intros i H; [discriminate|]. cbn [index_of] in H.
+  destruct (Nat.eqb_spec q x) as [->|Hne].
+  - injection H as <-. cbn. split; [lia|reflexivity].
+  - destruct (index_of q t) as [j|] eqn:E; [|discriminate]. cbn in H. injection H as <-.
+    destruct (IH j eq_refl) as [H1 H2]. cbn. split; [lia|exact H2].
+Qed.
+
+Lemma index_of_nth l : NoDup l -> forall i, (i < length l)%nat -> index_of (nth i l O) l = Some i.
+Proof.
+  induction 1 as [|x t Hx Hnd IH]; intros i Hi; [cbn in Hi; lia|].
+  destruct i as [|i]; cbn [nth index_of]; [rewrite Nat.eqb_refl; reflexivity|].
+  cbn in Hi. assert (Hi' : (i < length t)%nat) by lia.
+  destruct (Nat.eqb_spec (nth i t O) x) as [E|_].
+  - exfalso. apply Hx. rewrite <- E. apply nth_In. exact Hi'.
+  - rewrite IH by exact Hi'. reflexivity.
+Qed.
+
+Lemma index_of_In q l : In q l -> exists i, index_of q l = Some i.
+Proof.
+  induction l as [|x t IH]; intros H; [destruct H|]. cbn [index_of].
+  destruct (Nat.eqb_spec q x) as [_|Hne]; [eexists; reflexivity|].
+  destruct H as [->|H]; [contradiction|]. destruct (IH H) as [i Hi]. rewrite Hi. eexists. reflexivity.
+Qed.
+
+Lemma scatter_nth mapping : forall scores u q,
+  NoDup mapping -> length scores = length mapping -> Forall (fun i => (i < length u)%nat) mapping ->
+  nth q (scatter mapping scores u) None =
+  match index_of q mapping with Some i => nth i scores None | None => nth q u None end.
+Proof.
+  induction mapping as [|m mt IH]; intros scores u q Hnd Hl Hlt.
+  - destruct scores; reflexivity.
+  - destruct scores as [|s st]; [cbn in Hl; lia|].
+    inversion Hnd as [|? ? Hm Hnd']; subst. inversion Hlt as [|? ? Hm_lt Hlt']; subst.
+    cbn [scatter index_of]. rewrite IH; [|exact Hnd'|cbn in Hl; lia|rewrite set_at_length; exact Hlt'].
+    destruct (Nat.eqb_spec q m) as [->|Hne].
+    + rewrite (index_of_none m mt Hm). rewrite set_at_nth by exact Hm_lt. rewrite Nat.eqb_refl. reflexivity.
+    + destruct (index_of q mt) as [i|]; cbn [option_map nth]; [reflexivity|].
+      rewrite set_at_nth by exact Hm_lt. destruct (Nat.eqb_spec q m); [contradiction|reflexivity].
+Qed.
+
+Lemma nanmax_char (l : list val) (v : Z) :
+  In (Some v) l -> (forall k, In (Some k) l -> k <= v) -> nanmax l = Some v.
+Proof.
+  intros Hin Hub. destruct (nanmax_ub l v Hin) as [m [Hm Hle]].
+  pose proof (nanmax_in l m Hm) as Hm_in. specialize (Hub m Hm_in). rewrite Hm. f_equal. lia.
+Qed.
+
+(* the scattered copy of a vector has the same maximum, attained at the image of the arg max *)
+Lemma scatter_nanmax mapping scores n v i :
+  NoDup mapping -> length scores = length mapping -> Forall (fun j => (j < n)%nat) mapping ->
+  nanmax scores = Some v -> nth i scores None = Some v -> (i < length scores)%nat ->
+  let row := scatter mapping scores (repeat None n) in
+  nth (nth i mapping O) row None = Some v /\ nanmax row = Some v.
+Proof.
+  intros Hnd Hl Hlt Hm Hi Hil row.
+  assert (Hlt' : Forall (fun j => (j < length (repeat (@None Z) n))%nat) mapping) by (rewrite repeat_length; exact Hlt).
+  assert (Hp : nth (nth i mapping O) row None = Some v).
+  { unfold row. rewrite scatter_nth by assumption. rewrite index_of_nth by (try exact Hnd; lia). exact Hi. }
+  split; [exact Hp|]. apply nanmax_char.
+  - rewrite <- Hp. apply nth_In. unfold row. rewrite scatter_length, repeat_length.
+    rewrite Forall_forall in Hlt. apply Hlt. apply nth_In. lia.
+  - intros k Hk. destruct (In_nth _ _ None Hk) as [q [Hq Hqv]]. unfold row in Hqv.
+    rewrite scatter_nth in Hqv by assumption.
+    destruct (index_of q mapping) as [j|] eqn:Ej.
+    + destruct (nanmax_ub scores k) as [m' [Hm' Hle]].
+      { rewrite <- Hqv. apply nth_In. apply index_of_some in Ej. lia. }
+      rewrite Hm in Hm'. injection Hm' as <-. exact Hle.
+    + rewrite nth_repeat_None in Hqv. discriminate.
+Qed.
+
+(* =====================================================================================
+   loops masking an oracle row (Clue, DropQuery, DiscriminativeAL non-greedy, FourDs)
+   ===================================================================================== *)
+Section OracleLoopProof.
+  Variable n : nat.
+  Variable cs : list nat.
+  Variable score : list nat -> list val.
+  Hypothesis Hscore : forall prev, length (score prev) = length cs /\ Forall nonnan (score prev).
+
+  Theorem oracle_loop_accepted k noises :
+    NoDup cs -> Forall (fun i => (i < n)%nat) cs -> (k <= length cs)%nat -> noises_ok n k noises ->
+    psteps_ok SelMax cs [] n (oracle_loop n cs score k noises) = true /\
+    length (oracle_loop n cs score k noises) = k.
+  Proof.
+    intros Hnd Hlt Hk Hn. unfold oracle_loop.
+    apply (sel_loop_steps (list nat) (ol_row n cs score) (fun prev p => prev ++ [p]) cs n
+             (fun s prev => s = prev) Hnd Hlt).
+    - intros s prev ->. destruct (Hscore prev) as [Hl Hs].
+      assert (Hlt' : Forall (fun i => (i < length (repeat (@None Z) n))%nat) cs) by (rewrite repeat_length; exact Hlt).
+      split.
+      + unfold ol_row. rewrite <- (repeat_length (@None Z) n) at 2.
+        rewrite <- (scatter_length cs (score prev) (repeat None n)).
+        generalize (scatter cs (score prev) (repeat None n)). clear.
+        induction prev as [|p t IH]; intros u; cbn [mask_all]; [reflexivity|]. rewrite IH, set_nan_length. reflexivity.
+      + intros j _. unfold ol_row. rewrite mask_all_nth. fold (memb j prev).
+        destruct (memb j prev); [rewrite orb_true_r; reflexivity|]. rewrite orb_false_r.
+        rewrite scatter_is_nan by assumption. rewrite nth_repeat_None. destruct (memb j cs); reflexivity.
+    - intros s prev p -> _ _. reflexivity.
+    - reflexivity.
+    - constructor.
+    - intros x [].
+    - cbn [length]. lia.
+    - exact Hn.
+  Qed.
+End OracleLoopProof.
+
+(* a NaN score row makes the loop repeat a pick (FourDs: diversity = 0/0 when all densities agree):
+   the hypothesis `Forall nonnan` of the theorem is necessary *)
+Example oracle_loop_nan_refuted :
+  let score := fun prev : list nat => match prev with [] => [Some 1; Some 2; Some 3] | _ => [None; None; None] end in
+  map fst (oracle_loop 3 [0; 1; 2]%nat score 3 [[1; 1; 1]; [1; 1; 1]; [1; 1; 1]]) = [2; 0; 0]%nat.
+Proof. vm_compute. reflexivity. Qed.
+
+(* =====================================================================================
+   _greedy_sampling: compacted candidates
+   ===================================================================================== *)
+Fixpoint cnoises_ok (r k : nat) (noises : list (list Z)) : Prop :=
+  match k with
+  | O => True
+  | S k' => match noises with
+            | [] => False
+            | nz :: rest => noise_ok r nz /\ cnoises_ok (r - 1) k' rest
+            end
+  end.
+
+Lemma remove_nth_length {A} (l : list A) : forall i, (i < length l)%nat -> length (remove_nth i l) = (length l - 1)%nat.
+Proof.
+  induction l as [|x t IH]; intros i Hi; [cbn in Hi; lia|].
+  destruct i as [|i]; cbn [remove_nth length]; [lia|]. cbn in Hi. rewrite IH by lia. lia.
+Qed.
+
+Lemma remove_nth_in (l : list nat) : forall i q, NoDup l -> (i < length l)%nat ->
+  (In q (remove_nth i l) <-> In q l /\ q <> nth i l O).
+Proof.
+  induction l as [|x t IH]; intros i q Hnd Hi; [cbn in Hi; lia|].
+  inversion Hnd as [|? ? Hx Hnd']; subst.
+  destruct i as [|i]; cbn [remove_nth nth].
+  - split.
+    + intros H. split; [right; exact H|]. intros ->. contradiction.
+    + intros [[->|H] Hne]; [contradiction|exact H].
+  - cbn in Hi. assert (Hi' : (i < length t)%nat) by lia. specialize (IH i q Hnd' Hi').
+    split.
+    + intros [->|H].
+      * split; [left; reflexivity|]. intros E. apply Hx. rewrite E. apply nth_In. exact Hi'.
+      * apply IH in H. destruct H as [H1 H2]. split; [right; exact H1|exact H2].
+    + intros [[->|H] Hne]; [left; reflexivity|]. right. apply IH. split; assumption.
+Qed.
+
+Lemma remove_nth_nodup (l : list nat) : forall i, NoDup l -> NoDup (remove_nth i l).
+Proof.
+  induction l as [|x t IH]; intros i Hnd; [destruct i; constructor|].
+  inversion Hnd as [|? ? Hx Hnd']; subst.
+  destruct i as [|i]; cbn [remove_nth]; [exact Hnd'|].
+  constructor; [|apply IH; exact Hnd'].
+  intros Hin. apply Hx. clear -Hin. revert i Hin. induction t as [|y t IH]; intros i Hin; [destruct i; destruct Hin|].
+  destruct i as [|i]; cbn [remove_nth] in Hin; [right; exact Hin|].
+  destruct Hin as [->|Hin]; [left; reflexivity|right; apply (IH i); exact Hin].
+Qed.
+
+Section CompactProof.
+  Variable m : nat.
+  Variable score : list nat -> list nat -> list val.
+  Variable cs : list nat.
+  Hypothesis Hscore : forall picked remaining,
+    length (score picked remaining) = length remaining /\ Forall nonnan (score picked remaining).
+
+  Theorem compact_loop_steps : forall k picked remaining noises,
+    NoDup remaining -> Forall (fun i => (i < m)%nat) remaining ->
+    (forall q, In q remaining <-> In q cs /\ ~ In q picked) ->
+    (k <= length remaining)%nat -> cnoises_ok (length remaining) k noises ->
+    psteps_ok SelMax cs picked m (compact_loop m score k picked remaining noises) = true /\
+    length (compact_loop m score k picked remaining noises) = k.
+  Proof.
+    induction k as [|k IH]; intros picked remaining noises Hnd Hlt Hmem Hk Hn.
+    - destruct noises; cbn; split; reflexivity.
+    - destruct noises as [|nz rest]; [cbn in Hn; contradiction|]. cbn [cnoises_ok] in Hn. destruct Hn as [Hnz Hrest].
+      cbn [compact_loop]. set (util := score picked remaining). set (i := rand_argmax util nz).
+      destruct (Hscore picked remaining) as [Hul Hus]. fold util in Hul, Hus.
+      assert (Hpos : (0 < count_nonnan util)%nat).
+      { destruct util as [|u0 ut] eqn:Eu; [cbn in Hul; lia|]. inversion Hus as [|? ? Hu0 _]; subst.
+        rewrite count_nonnan_cons. unfold nonnan in Hu0. rewrite Hu0. lia. }
+      destruct (count_nonnan_pos_nanmax util Hpos) as [v Hv].
+      assert (Hnz' : noise_ok (length util) nz) by (rewrite Hul; exact Hnz).
+      destruct (rand_argmax_optimal util nz v Hnz' Hv) as [Hi Hiv]. fold i in Hi, Hiv.
+      set (p := nth i remaining O).
+      assert (Hir : (i < length remaining)%nat) by lia.
+      assert (Hp_in : In p remaining) by (apply nth_In; exact Hir).
+      destruct (scatter_nanmax remaining util m v i Hnd Hul Hlt Hv Hiv Hi) as [Hrow_p Hrow_max].
+      fold p in Hrow_p. set (row := scatter remaining util (repeat None m)) in *.
+      assert (Hpm : (p < m)%nat) by (rewrite Forall_forall in Hlt; apply Hlt; exact Hp_in).
+      assert (Hlt' : Forall (fun j => (j < length (repeat (@None Z) m))%nat) remaining) by (rewrite repeat_length; exact Hlt).
+      specialize (IH (picked ++ [p]) (remove_nth i remaining) rest).
+      destruct IH as [IH1 IH2].
+      + apply remove_nth_nodup. exact Hnd.
+      + rewrite Forall_forall in *. intros q Hq. apply remove_nth_in in Hq; [|exact Hnd|exact Hir]. apply Hlt. tauto.
+      + intros q. rewrite remove_nth_in by assumption. fold p. rewrite Hmem. rewrite in_app_iff. cbn [In].
+        split; [intros [[H1 H2] H3]; split; [exact H1|]; intros [H|[H|[]]]; [contradiction|congruence]
+               |intros [H1 H2]; split; [split; [exact H1|tauto]|intros ->; apply H2; right; left; reflexivity]].
+      + rewrite remove_nth_length by exact Hir. lia.
+      + rewrite remove_nth_length by exact Hir. exact Hrest.
+      + split; [|cbn [length]; rewrite IH2; reflexivity].
+        cbn [psteps_ok fst]. apply andb_true_intro. split; [|exact IH1].
+        unfold pstep_ok. fold row. rewrite Hrow_p, Hrow_max.
+        assert (Hlen : length row = m) by (unfold row; rewrite scatter_length, repeat_length; reflexivity).
+        rewrite (proj2 (Nat.eqb_eq _ _) Hlen), (proj2 (Nat.ltb_lt _ _) Hpm). cbn [andb].
+        rewrite nan_pattern_intro.
+        * cbn. apply Z.eqb_refl.
+        * intros j _. cbn [Nat.add]. unfold row. rewrite scatter_is_nan by assumption. rewrite nth_repeat_None.
+          destruct (memb j remaining) eqn:Ej.
+          -- apply memb_In in Ej. apply Hmem in Ej. destruct Ej as [E1 E2].
+             apply memb_In in E1. apply memb_false in E2. rewrite E1, E2. reflexivity.
+          -- cbn [is_nan]. apply memb_false in Ej.
+             destruct (memb j cs) eqn:Ec; [|reflexivity]. destruct (memb j picked) eqn:Ep; [reflexivity|].
+             exfalso. apply Ej. apply Hmem. split; [apply memb_In; exact Ec|apply memb_false; exact Ep].
+  Qed.
+End CompactProof.
+
+Lemma gsx_score_ok d n_samples labeled cidx picked remaining :
+  length (gsx_score d n_samples labeled cidx picked remaining) = length remaining /\
+  Forall nonnan (gsx_score d n_samples labeled cidx picked remaining).
+Proof.
+  unfold gsx_score. split; [apply map_length|].
+  rewrite Forall_forall. intros x Hx. apply in_map_iff in Hx. destruct Hx as [c [<- _]].
+  destruct (labeled ++ map cidx picked); reflexivity.
+Qed.
+
+Lemma cnoises_ok_seq_lt m : Forall (fun i => (i < m)%nat) (seq 0 m).
+Proof. rewrite Forall_forall. intros x Hx. apply in_seq in Hx. lia. Qed.
+
+(* GreedySamplingX, candidate space: for every distance oracle *)
+Theorem gsx_accepted d n_samples labeled cidx m k noises :
+  (k <= m)%nat -> cnoises_ok m k noises ->
+  psteps_ok SelMax (seq 0 m) [] m (gsx_loop d n_samples labeled cidx m k noises) = true /\
+  length (gsx_loop d n_samples labeled cidx m k noises) = k.
+Proof.
+  intros Hk Hn. unfold gsx_loop.
+  apply (compact_loop_steps m (gsx_score d n_samples labeled cidx) (seq 0 m)).
+  - intros. apply gsx_score_ok.
+  - apply seq_NoDup.
+  - apply cnoises_ok_seq_lt.
+  - intros q. tauto.
+  - rewrite seq_length. exact Hk.
+  - rewrite seq_length. exact Hn.
+Qed.
+
+(* =====================================================================================
+   candidate space -> sample space (utilities[:, mapping] = utilities_cand; mapping[query_indices_cand])
+   ===================================================================================== *)
+Lemma is_nan_eq_iff (a : val) (b : bool) : (a = None <-> b = true) -> is_nan a = b.
+Proof. destruct a, b; cbn; intros [H1 H2]; try reflexivity; [specialize (H2 eq_refl); discriminate|specialize (H1 eq_refl); discriminate]. Qed.
+
+Theorem remap_accepted n mapping :
+  NoDup mapping -> Forall (fun i => (i < n)%nat) mapping ->
+  forall t prev,
+  Forall (fun p => (p < length mapping)%nat) prev ->
+  psteps_ok SelMax (seq 0 (length mapping)) prev (length mapping) t = true ->
+  psteps_ok SelMax mapping (map (fun p => nth p mapping O) prev) n (remap n mapping t) = true.
+Proof.
+  intros Hnd Hlt. set (m := length mapping).
+  assert (Hlt' : Forall (fun j => (j < length (repeat (@None Z) n))%nat) mapping) by (rewrite repeat_length; exact Hlt).
+  induction t as [|[p row] rest IH]; intros prev Hprev H; [reflexivity|].
+  cbn [psteps_ok] in H. apply andb_prop in H. destruct H as [H1 H2].
+  apply step_ok_spec in H1. destruct H1 as [Hlen [Hp [Hpat [v [Hpv Hmax]]]]].
+  cbn [remap map psteps_ok fst snd]. apply andb_true_intro. split.
+  - destruct (scatter_nanmax mapping row n v p Hnd Hlen Hlt Hmax Hpv ltac:(lia)) as [Hq Hqmax].
+    set (srow := scatter mapping row (repeat None n)) in *.
+    unfold pstep_ok. rewrite Hq, Hqmax.
+    assert (Hsl : length srow = n) by (unfold srow; rewrite scatter_length, repeat_length; reflexivity).
+    assert (Hpn : (nth p mapping O < n)%nat) by (rewrite Forall_forall in Hlt; apply Hlt; apply nth_In; exact Hp).
+    rewrite (proj2 (Nat.eqb_eq _ _) Hsl), (proj2 (Nat.ltb_lt _ _) Hpn). cbn [andb].
+    rewrite nan_pattern_intro; [cbn; apply Z.eqb_refl|].
+    intros j _. cbn [Nat.add]. subst srow. rewrite scatter_nth by assumption.
+    destruct (index_of j mapping) as [i|] eqn:Ei.
+    + destruct (index_of_some _ _ _ Ei) as [Him Hij]. fold m in Him.
+      assert (Hjm : memb j mapping = true) by (apply memb_In; rewrite <- Hij; apply nth_In; exact Him).
+      rewrite Hjm. cbn [negb orb]. apply is_nan_eq_iff. rewrite (Hpat i Him). split.
+      * intros [Hc|Hin]; [exfalso; apply Hc; apply in_seq; lia|].
+        apply memb_In. apply in_map_iff. exists i. split; [exact Hij|exact Hin].
+      * intros Hm. right. apply memb_In in Hm. apply in_map_iff in Hm. destruct Hm as [p' [Hp' Hin]].
+        rewrite Forall_forall in Hprev. pose proof (Hprev p' Hin) as Hp'm.
+        assert (p' = i); [|subst; exact Hin].
+        apply (proj1 (NoDup_nth mapping O) Hnd); [exact Hp'm|exact Him|congruence].
+    + rewrite nth_repeat_None. cbn [is_nan].
+      destruct (memb j mapping) eqn:Em; [|reflexivity].
+      apply memb_In in Em. destruct (index_of_In j mapping Em) as [i Hi]. congruence.
+  - specialize (IH (prev ++ [p])). rewrite map_app in IH. cbn [map] in IH. apply IH; [|exact H2].
+    apply Forall_app. split; [exact Hprev|constructor; [exact Hp|constructor]].
+Qed.
+
+(* GreedySamplingX as returned for candidates = None / indices: for every distance oracle *)
+Theorem gsx_remapped_accepted d n_samples labeled cidx n mapping k noises :
+  NoDup mapping -> Forall (fun i => (i < n)%nat) mapping -> (k <= length mapping)%nat ->
+  cnoises_ok (length mapping) k noises ->
+  let t := remap n mapping (gsx_loop d n_samples labeled cidx (length mapping) k noises) in
+  psteps_ok SelMax mapping [] n t = true /\ length t = k.
+Proof.
+  intros Hnd Hlt Hk Hn t.
+  destruct (gsx_accepted d n_samples labeled cidx (length mapping) k noises Hk Hn) as [Hs Hl].
+  split; [|unfold t, remap; rewrite map_length; exact Hl].
+  exact (remap_accepted n mapping Hnd Hlt _ [] (Forall_nil _) Hs).
+Qed.
+
+(* ---------- user-level corollaries for the oracle / compacted loops ---------- *)
+Theorem oracle_loop_valid_batch (n : nat) (cs : list nat) (score : list nat -> list val) (k : nat) (noises : list (list Z)) :
+  (forall prev, length (score prev) = length cs /\ Forall (fun v => is_nan v = false) (score prev)) ->
+  NoDup cs -> Forall (fun i => (i < n)%nat) cs -> (k <= length cs)%nat -> noises_ok n k noises ->
+  let picks := map fst (oracle_loop n cs score k noises) in
+  length picks = k /\ NoDup picks /\ Forall (fun p => In p cs) picks.
+Proof.
+  intros Hs Hnd Hlt Hk Hn picks.
+  destruct (oracle_loop_accepted n cs score Hs k noises Hnd Hlt Hk Hn) as [H Hl].
+  unfold picks. rewrite map_length. split; [exact Hl|]. exact (steps_valid_batch cs n _ H).
+Qed.
+
+Theorem oracle_loop_rows (n : nat) (cs : list nat) (score : list nat -> list val) (k : nat) (noises : list (list Z)) :
+  (forall prev, length (score prev) = length cs /\ Forall (fun v => is_nan v = false) (score prev)) ->
+  NoDup cs -> Forall (fun i => (i < n)%nat) cs -> (k <= length cs)%nat -> noises_ok n k noises ->
+  let t := oracle_loop n cs score k noises in
+  forall i s, nth_error t i = Some s -> step_spec SelMax cs (firstn i (map fst t)) n s.
+Proof.
+  intros Hs Hnd Hlt Hk Hn t i s Hi.
+  destruct (oracle_loop_accepted n cs score Hs k noises Hnd Hlt Hk Hn) as [H _].
+  exact (steps_ok_spec SelMax cs n t [] H i s Hi).
+Qed.
+
+Theorem gsx_valid_batch d n_samples labeled cidx n mapping k noises :
+  NoDup mapping -> Forall (fun i => (i < n)%nat) mapping -> (k <= length mapping)%nat ->
+  cnoises_ok (length mapping) k noises ->
+  let picks := map fst (remap n mapping (gsx_loop d n_samples labeled cidx (length mapping) k noises)) in
+  length picks = k /\ NoDup picks /\ Forall (fun p => In p mapping) picks.
+Proof.
+  intros Hnd Hlt Hk Hn picks.
+  destruct (gsx_remapped_accepted d n_samples labeled cidx n mapping k noises Hnd Hlt Hk Hn) as [H Hl].
+  unfold picks. rewrite map_length. split; [exact Hl|]. exact (steps_valid_batch mapping n _ H).
+Qed.
+
+Theorem gsx_rows d n_samples labeled cidx n mapping k noises :
+  NoDup mapping -> Forall (fun i => (i < n)%nat) mapping -> (k <= length mapping)%nat ->
+  cnoises_ok (length mapping) k noises ->
+  let t := remap n mapping (gsx_loop d n_samples labeled cidx (length mapping) k noises) in
+  forall i s, nth_error t i = Some s -> step_spec SelMax mapping (firstn i (map fst t)) n s.
+Proof.
+  intros Hnd Hlt Hk Hn t i s Hi.
+  destruct (gsx_remapped_accepted d n_samples labeled cidx n mapping k noises Hnd Hlt Hk Hn) as [H _].
+  exact (steps_ok_spec SelMax mapping n t [] H i s Hi).
+Qed.
+
+(* any candidate-space trace with the documented rows stays valid after the remapping *)
+Theorem remap_valid_batch n mapping t :
+  NoDup mapping -> Forall (fun i => (i < n)%nat) mapping ->
+  psteps_ok SelMax (seq 0 (length mapping)) [] (length mapping) t = true ->
+  psteps_ok SelMax mapping [] n (remap n mapping t) = true /\
+  NoDup (map fst (remap n mapping t)) /\ Forall (fun p => In p mapping) (map fst (remap n mapping t)).
+Proof.
+  intros Hnd Hlt H. pose proof (remap_accepted n mapping Hnd Hlt t [] (Forall_nil _) H) as H'.
+  split; [exact H'|]. exact (steps_valid_batch mapping n _ H').
+Qed.
